@@ -40,6 +40,11 @@ type scope struct {
 	children   map[*scope]struct{}
 	childrenMu sync.Mutex
 
+	// Per-service creation locks: a scoped service is constructed by one
+	// goroutine at a time in this scope
+	creating   map[instanceKey]*sync.Mutex
+	creatingMu sync.Mutex
+
 	// State
 	disposed int32 // atomic
 }
@@ -426,6 +431,16 @@ func (s *scope) resolve(key instanceKey, descriptor *Descriptor) (any, error) {
 			return instance, nil
 		}
 
+		// Only one goroutine constructs a given scoped service of this scope;
+		// the others wait for it and then find the instance in the cache.
+		// (A failed construction caches nothing, so the next one retries.)
+		unlock := s.lockCreation(descriptor, key)
+		defer unlock()
+
+		if instance, ok := s.getInstance(key); ok {
+			return instance, nil
+		}
+
 		// Create and cache scoped instance
 		instance, err := s.createInstance(descriptor)
 		if err != nil {
@@ -443,6 +458,32 @@ func (s *scope) resolve(key instanceKey, descriptor *Descriptor) (any, error) {
 			Value: descriptor.Lifetime,
 		}
 	}
+}
+
+// lockCreation serialises the construction of one scoped service within this
+// scope and returns the function that releases it. All outputs of one
+// constructor (result object fields, multiple returns, aliases) share a lock,
+// because one invocation produces all of them. Lock order follows the
+// dependency relation, which Build has verified to be acyclic.
+func (s *scope) lockCreation(descriptor *Descriptor, key instanceKey) (unlock func()) {
+	if len(descriptor.outputs) > 0 && descriptor.outputs[0] != nil {
+		first := descriptor.outputs[0]
+		key = instanceKey{Type: first.Type, Key: first.Key, Group: first.Group}
+	}
+
+	s.creatingMu.Lock()
+	if s.creating == nil {
+		s.creating = make(map[instanceKey]*sync.Mutex)
+	}
+	mu, ok := s.creating[key]
+	if !ok {
+		mu = &sync.Mutex{}
+		s.creating[key] = mu
+	}
+	s.creatingMu.Unlock()
+
+	mu.Lock()
+	return mu.Unlock
 }
 
 // createInstance creates a new instance of a service using its constructor.
